@@ -86,20 +86,20 @@ Print Assumptions C01_wf_check_sound.
 From PV Require Import Static StaticProofs.
 
 Theorem C01_program_refines_walk :
-  forall s rp df, wf s df -> links_ok s ->
-  forall fz chk, fz <> 0%nat -> chk_static_ok s rp chk ->
-  forall ps nosym nf t root path, tget t root = Some ROOT -> has_nul path = false ->
+  forall s rp F df, wf s df -> links_ok s -> closed s ->
+  forall fz chk, fz <> 0%nat -> chk_static_ok s rp F chk ->
+  forall ps nosym nf t root path, Frame s F t -> tget t root = Some ROOT -> has_nul path = false ->
     match ewalk s path nf nosym with
     | WOk o => exists t' fd, run s rp t (resolve_gen fz ps chk root path nosym nf) = Done t' (Ok fd) /\ tget t' fd = Some o
     | WErr n => exists t', run s rp t (resolve_gen fz ps chk root path nosym nf) = Done t' (Err (OsError n))
     | WBudget => exists t', run s rp t (resolve_gen fz ps chk root path nosym nf) = Done t' (Err (OsError ELOOP))
     end.
-Proof. intros s rp df Hwf Hl fz chk Hfz Hchk ps nosym nf t root path. exact (resolve_static s rp fz Hfz chk Hchk df Hwf Hl ps nosym nf t root path). Qed.
+Proof. intros s rp F df Hwf Hl Hcl fz chk Hfz Hchk ps nosym nf t root path. exact (resolve_static s rp F Hcl fz Hfz chk Hchk df Hwf Hl ps nosym nf t root path). Qed.
 
 Theorem C01_program_eq_kernel :
-  forall s rp df, wf s df -> links_ok s ->
-  forall fz chk, fz <> 0%nat -> chk_static_ok s rp chk ->
-  forall ps nosym nf t root path, tget t root = Some ROOT -> has_nul path = false ->
+  forall s rp F df, wf s df -> links_ok s -> closed s ->
+  forall fz chk, fz <> 0%nat -> chk_static_ok s rp F chk ->
+  forall ps nosym nf t root path, Frame s F t -> tget t root = Some ROOT -> has_nul path = false ->
     (EMPTY_PATH_IS_ENOENT = true \/ path <> []) ->
     match kwalk s path nf nosym with
     | WOk o => exists t' fd, run s rp t (resolve_gen fz ps chk root path nosym nf) = Done t' (Ok fd) /\ tget t' fd = Some o
@@ -107,8 +107,8 @@ Theorem C01_program_eq_kernel :
     | WBudget => True          (* more than 40 link traversals: known finding F-H *)
     end.
 Proof.
-  intros s rp df Hwf Hl fz chk Hfz Hchk ps nosym nf t root path Hroot Hnul Hp.
-  pose proof (C01_program_refines_walk s rp df Hwf Hl fz chk Hfz Hchk ps nosym nf t root path Hroot Hnul) as H.
+  intros s rp F df Hwf Hl Hcl fz chk Hfz Hchk ps nosym nf t root path Hfr Hroot Hnul Hp.
+  pose proof (C01_program_refines_walk s rp F df Hwf Hl Hcl fz chk Hfz Hchk ps nosym nf t root path Hfr Hroot Hnul) as H.
   destruct (kwalk s path nf nosym) as [o|n|] eqn:Ek; [| |exact I];
     rewrite (emu_eq_kernel s df Hwf path nf nosym Hp) in H by (rewrite Ek; discriminate); rewrite Ek in H; exact H.
 Qed.
@@ -123,22 +123,63 @@ Proof. exact resolve_is_gen. Qed.
    as_unsafe_path -- the library's reading of /proc/thread-self/fd/N -- returns, for a
    descriptor open on the object with path [exp] below the root, an absolute path made of
    the root directory's components followed by [exp], opath::resolve itself (check_current
-   included) returns the walk's answer.  (Static.v has no procfs, so this premise cannot be
-   discharged inside the model; ties T1/T2 observe it on every traced lookup.) *)
+   included) returns the walk's answer.  (Discharged below for a procfs handle that uses openat2.) *)
 Theorem C01_resolve_refines_walk :
-  forall s rp df rootcomps, wf s df -> links_ok s -> names_ok s ->
-  forall fz o2 pfuel gh, fz <> 0%nat -> getpath_ok s rp rootcomps (as_unsafe_path fz o2 pfuel gh) ->
-  forall ps nosym nf t root path, tget t root = Some ROOT -> has_nul path = false ->
+  forall s rp F df rootcomps, wf s df -> links_ok s -> names_ok s -> closed s ->
+  forall fz o2 pfuel gh, fz <> 0%nat -> getpath_ok s rp F rootcomps (as_unsafe_path fz o2 pfuel gh) ->
+  forall ps nosym nf t root path, Frame s F t -> tget t root = Some ROOT -> has_nul path = false ->
     match ewalk s path nf nosym with
     | WOk o => exists t' fd, run s rp t (opath_resolve_root fz o2 pfuel gh ps root path nosym nf) = Done t' (Ok fd) /\ tget t' fd = Some o
     | WErr n => exists t', run s rp t (opath_resolve_root fz o2 pfuel gh ps root path nosym nf) = Done t' (Err (OsError n))
     | WBudget => exists t', run s rp t (opath_resolve_root fz o2 pfuel gh ps root path nosym nf) = Done t' (Err (OsError ELOOP))
     end.
 Proof.
-  intros s rp df rc Hwf Hl Hn fz o2 pfuel gh Hfz Hg ps nosym nf t root path Hroot Hnul.
+  intros s rp F df rc Hwf Hl Hn Hcl fz o2 pfuel gh Hfz Hg ps nosym nf t root path Hfr Hroot Hnul.
   rewrite resolve_is_gen.
-  apply (C01_program_refines_walk s rp df Hwf Hl fz _ Hfz (check_current_static s rp rc _ Hn Hg) ps nosym nf t root path Hroot Hnul).
+  apply (C01_program_refines_walk s rp F df Hwf Hl Hcl fz _ Hfz (check_current_static s rp F rc _ Hn Hg) ps nosym nf t root path Hfr Hroot Hnul).
 Qed.
+
+(* ... and with nothing left open about check_current: Static.v models as much of procfs
+   as as_unsafe_path needs (the handle's root, the thread directory, one magic-link per
+   open descriptor whose readlink is the kernel's rendering of the object's path), and on
+   it the library's own reading of /proc/thread-self/fd/N is proved to return root path +
+   path (StaticProcfs.run_as_unsafe_path).  So for a procfs handle that resolves with
+   openat2: the whole of opath::resolve -- walk, Rc bookkeeping, every check_current with
+   its procfs round-trips -- returns what the kernel's walk returns, on every well-formed
+   tree without hard links.  The premises after [wf] are properties of the tree alone. *)
+From PV Require Import StaticProcfs.
+
+Theorem C01_resolve_eq_walk :
+  forall s rp df, wf s df -> links_ok s -> names_ok s -> closed s -> paths_found s -> paths_short s rp -> is_abs rp = true ->
+  forall fz pf gh, fz <> 0%nat -> ph_mnt gh = Some PROC_MNT -> ph_openat2 gh = true ->
+  forall ps nosym nf t root path,
+    Frame s [(ph_fd gh, PB s)] t -> tget t root = Some ROOT -> has_nul path = false ->
+    match ewalk s path nf nosym with
+    | WOk o => exists t' fd, run s rp t (opath_resolve_root fz true (S pf) gh ps root path nosym nf) = Done t' (Ok fd) /\ tget t' fd = Some o
+    | WErr n => exists t', run s rp t (opath_resolve_root fz true (S pf) gh ps root path nosym nf) = Done t' (Err (OsError n))
+    | WBudget => exists t', run s rp t (opath_resolve_root fz true (S pf) gh ps root path nosym nf) = Done t' (Err (OsError ELOOP))
+    end.
+Proof.
+  intros s rp df Hwf Hl Hn Hcl Hpf Hps Habs fz pf gh Hfz Hmnt Ho2 ps nosym nf t root path Hfr Hroot Hnul.
+  apply (C01_resolve_refines_walk s rp _ df (CheckProofs.nf rp) Hwf Hl Hn Hcl fz true (S pf) gh Hfz
+           (getpath_static s rp fz gh pf Hfz Hmnt Ho2 Habs Hn Hpf Hps) ps nosym nf t root path Hfr Hroot Hnul).
+Qed.
+
+(* the real program, executed: tree with escaping / absolute links, '..' steps (each one
+   checked through the procfs handle at descriptor 4), root at descriptor 5 *)
+Example C01_resolve_runs :
+  let s := FSModel.build [FSModel.MkDir [b "a"]; FSModel.MkDir [b "a"; b "b"]; FSModel.MkFile [b "a"; b "b"; b "f"]; FSModel.MkLnk [b "esc"] (b "../../..");
+                  FSModel.MkLnk [b "a"; b "up"] (b "../a/b"); FSModel.MkLnk [b "abs"] (b "/a")] in
+  let gh := {| ph_fd := 4; ph_mnt := Some PROC_MNT; ph_subset := false; ph_openat2 := true |} in
+  let t := [(5%Z, ROOT); (4%Z, PB s)] in
+  (match run s (b "/srv/root") t (opath_resolve_root 1 true 2 gh 1 5 (b "esc/a/up/../b/f") false false) with
+   | Done t' (Ok fd) => (tget t' fd, length t')
+   | _ => (None, 0%nat) end) = (Some 3%nat, 3%nat) /\
+  (match run s (b "/srv/root") t (opath_resolve_root 1 true 2 gh 1 5 (b "a/../../abs/b/..") false false) with
+   | Done t' (Ok fd) => tget t' fd
+   | _ => None end) = Some 1%nat /\
+  find_path s 3 = Some [b "a"; b "b"; b "f"].
+Proof. vm_compute. repeat split. Qed.
 
 (* non-vacuity: the premises are met by a concrete tree and check routine, and the
    program really runs to the kernel's answer there *)
@@ -146,16 +187,17 @@ Example C01_program_concrete :
   let s := FSModel.build [FSModel.MkDir [b "a"]; FSModel.MkDir [b "a"; b "b"]; FSModel.MkFile [b "a"; b "b"; b "f"]; FSModel.MkLnk [b "esc"] (b "../../..");
                   FSModel.MkLnk [b "a"; b "up"] (b "../a/b"); FSModel.MkLnk [b "abs"] (b "/a")] in
   let chk := fun (_ _ : Z) (_ : list bytes) => Ret (Ok tt) in
-  wf_b s = true /\ chk_static_ok s (b "/srv/root") chk /\
+  wf_b s = true /\ chk_static_ok s (b "/srv/root") [] chk /\
   (match run s (b "/srv/root") [(5%Z, ROOT)] (resolve_gen 1 1 chk 5 (b "esc/a/up/../b/f") false false) with
    | Done t' (Ok fd) => tget t' fd
    | _ => None end) = Some 3%nat /\
   (match run s (b "/srv/root") [(5%Z, ROOT)] (resolve_gen 1 1 chk 5 (b "a/b/f/x") false false) with
    | Done _ (Err (OsError e)) => Some e
    | _ => None end) = Some E_NOTDIR.
-Proof. split; [vm_compute; reflexivity|]. split; [intros t cur root exp o _ _ _; reflexivity|]. split; vm_compute; reflexivity. Qed.
+Proof. split; [vm_compute; reflexivity|]. split; [intros t cur root exp o _ _ _ _; reflexivity|]. split; vm_compute; reflexivity. Qed.
 
 Print Assumptions C01_program_refines_walk.
 Print Assumptions C01_program_eq_kernel.
 Print Assumptions C01_program_is_the_model.
 Print Assumptions C01_resolve_refines_walk.
+Print Assumptions C01_resolve_eq_walk.
